@@ -448,6 +448,13 @@ func (f *formatStore) Batch(operations []spi.Operation) error {
 		if err != nil {
 			return fmt.Errorf("failed to generate formatted operations using non-deterministic keys: %w", err)
 		}
+
+		// Deletes of keys that are not in the store are dropped. If that leaves nothing to do, then the
+		// underlying store must not be called: it would reject the empty batch although the operations
+		// given to this method are valid.
+		if len(operations) > 0 && len(formattedOperations) == 0 {
+			return nil
+		}
 	}
 
 	err = f.underlyingStore.Batch(formattedOperations)
